@@ -193,21 +193,36 @@ PROBES = [
     "10 FOR I=1 TO 2:FOR J=1 TO 2:PRINT I;J:NEXT J:NEXT\n20 PRINT \"D\"",
 ]
 
+# programs whose first line is line 0 (the steering variables are set there) and that jump back to it: line 0 in every
+# position of a target list, in THEN / ELSE / GOTO / GOSUB
+PROBES_ZERO = [
+    "10 K=K+1:PRINT \"K\";K:IF K>2 THEN END\n20 ON A GOTO 40,0,50\n30 PRINT \"FALL\":END\n40 PRINT \"T4\":END\n50 PRINT \"T5\"",
+    "10 K=K+1:PRINT \"K\";K:IF K>2 THEN END\n20 ON A GOTO 0,40,50\n30 PRINT \"FALL\":END\n40 PRINT \"T4\":END\n50 PRINT \"T5\"",
+    "10 K=K+1:PRINT \"K\";K:IF K>2 THEN END\n20 ON A GOTO 40,50,0\n30 PRINT \"FALL\":END\n40 PRINT \"T4\":END\n50 PRINT \"T5\"",
+    "10 K=K+1:PRINT \"K\";K:IF K>2 THEN END\n20 ON A GOTO 40,0,0,50:PRINT \"NONE\"\n30 PRINT \"FALL\":END\n40 PRINT \"T4\":END\n50 PRINT \"T5\"",
+    "10 K=K+1:PRINT \"K\";K:IF K>3 THEN END\n20 IF K>1 THEN RETURN\n30 ON A GOSUB 60,0,70:PRINT \"BACK\":END\n60 PRINT \"S6\":RETURN\n70 PRINT \"S7\":RETURN",
+    "10 K=K+1:PRINT \"K\";K:IF K>2 THEN END\n20 IF A=1 THEN 0 ELSE IF A=2 THEN PRINT \"TWO\" ELSE 0\n30 PRINT \"N\"",
+    "10 K=K+1:PRINT \"K\";K:IF K>2 THEN END\n20 IF A=2 THEN PRINT \"TWO\":GOTO 0\n30 PRINT \"N\":IF A=1 THEN GOTO 0",
+]
+
 FLAGS = ["0100000", "0101000", "0100100", "0101100"]
 
 
 def cases(tier):
     r = rng("ctl-suite")
-    progs = list(PROBES)
+    progs = list(PROBES) + ["#0 " + p for p in PROBES_ZERO]
     for _ in range(120 if tier != "thorough" else 1200):
         progs.append(CGen(r).program())
     out = []
     for k, p in enumerate(progs):
-        probe = k < len(PROBES)
+        probe = k < len(PROBES) + len(PROBES_ZERO)
+        first = "5 "
+        if p.startswith("#0 "):
+            first, p = "0 ", p[3:]
         envs = ENVS if probe or tier == "thorough" else r.sample(ENVS, 2)
         for n, env in enumerate(envs):
             # the input vector is part of the program: a first line that sets the steering variables
-            text = "5 " + ":".join(f"{v}={int(x)}" for v, x in env.items()) + "\n" + p
+            text = first + ":".join(f"{v}={int(x)}" for v, x in env.items()) + "\n" + p
             for flags in (FLAGS if probe else [r.choice(FLAGS)]):
                 o = {"flags": flags, "storage": 32, "procname": "", "sizes": []}
                 out.append({"fmt": "ctl", "kind": "probe" if probe else "generated", "text": text, "opts": o,
